@@ -8,6 +8,7 @@ import (
 	"context"
 	"fmt"
 	"strconv"
+	"strings"
 
 	"github.com/freeconf/yang/meta"
 	"github.com/freeconf/yang/node"
@@ -32,6 +33,43 @@ func ToVal(s *schema.Node, v string) (val.Value, error) {
 	case "uint8":
 		n, err := strconv.ParseUint(v, 10, 8)
 		return val.UInt8(n), err
+	case "int8":
+		n, err := strconv.ParseInt(v, 10, 8)
+		return val.Int8(n), err
+	case "int16":
+		n, err := strconv.ParseInt(v, 10, 16)
+		return val.Int16(n), err
+	case "uint16":
+		n, err := strconv.ParseUint(v, 10, 16)
+		return val.UInt16(n), err
+	case "uint32":
+		n, err := strconv.ParseUint(v, 10, 32)
+		return val.UInt32(n), err
+	case "uint64":
+		n, err := strconv.ParseUint(v, 10, 64)
+		return val.UInt64(n), err
+	case "binary":
+		return val.Binary([]byte(v)), nil
+	case "empty":
+		return val.NotEmpty, nil
+	case "identityref":
+		return val.IdentRef{Label: v}, nil
+	case "union":
+		if n, err := strconv.ParseInt(v, 10, 32); err == nil {
+			return val.Int32(n), nil
+		}
+		return val.String(v), nil
+	case "bits":
+		b := val.Bits{}
+		for _, l := range strings.Fields(v) {
+			for i, name := range s.Bits {
+				if name == l {
+					b.Positions |= 1 << uint(i)
+					b.Labels = append(b.Labels, l)
+				}
+			}
+		}
+		return b, nil
 	case "boolean":
 		return val.Bool(v == "true"), nil
 	case "decimal64":
@@ -52,6 +90,48 @@ func ToValList(s *schema.Node, vs []string) (val.Value, error) {
 	switch s.Type {
 	case "string":
 		return val.StringList(append([]string(nil), vs...)), nil
+	case "enum":
+		var out val.EnumList
+		for _, v := range vs {
+			x, err := ToVal(s, v)
+			if err != nil {
+				return nil, err
+			}
+			out = append(out, x.(val.Enum))
+		}
+		return out, nil
+	case "uint64":
+		out := make([]uint64, len(vs))
+		for i, v := range vs {
+			n, err := strconv.ParseUint(v, 10, 64)
+			if err != nil {
+				return nil, err
+			}
+			out[i] = n
+		}
+		return val.UInt64List(out), nil
+	case "boolean":
+		out := make([]bool, len(vs))
+		for i, v := range vs {
+			out[i] = v == "true"
+		}
+		return val.BoolList(out), nil
+	case "decimal64":
+		out := make([]float64, len(vs))
+		for i, v := range vs {
+			f, err := strconv.ParseFloat(v, 64)
+			if err != nil {
+				return nil, err
+			}
+			out[i] = f
+		}
+		return val.Decimal64List(out), nil
+	case "identityref":
+		var out val.IdentRefList
+		for _, v := range vs {
+			out = append(out, val.IdentRef{Label: v})
+		}
+		return out, nil
 	case "int32":
 		out := make([]int32, len(vs))
 		for i, v := range vs {
